@@ -330,7 +330,30 @@ def evaluate(prop, harness_names, tier, seed, stats, timeout=3600):
     return violations, corr, problem
 
 
+def decode_core(x):
+    """readable form of a Core outcome `out:<hex>|val:<hex>` / `out:<hex>|err:Kind`"""
+    if not isinstance(x, str) or not x.startswith('out:'):
+        return None
+    parts = []
+    for part in x.split('|'):
+        k, _, h = part.partition(':')
+        if k in ('out', 'val'):
+            try:
+                parts.append('%s: %s' % (k, bytes.fromhex(h).decode('utf-8', 'replace')))
+                continue
+            except ValueError:
+                pass
+        parts.append(part)
+    return ' | '.join(parts)
+
+
 def write_replay(prop, kind, payload):
+    for v in [payload.get('first')] + list(payload.get('more', [])) + list(payload.get('correspondence_samples', [])):
+        if isinstance(v, dict):
+            for k in ('impl', 'model', 'spec'):
+                d = decode_core(v.get(k))
+                if d is not None:
+                    v[k + '_readable'] = d
     d = os.path.join(ROOT, 'replays', prop)
     os.makedirs(d, exist_ok=True)
     p = os.path.join(d, '%s-%d.json' % (kind, int(time.time() * 1000) % 10**10))
